@@ -19,6 +19,7 @@
  *   M s orc oa ob       -> ret hex(eav_errstr)             (default settings: eav_init; eav_setup; eav_is_email)
  *   J m mask tld rc     -> ret errcode                       (eav_is_email over a stub callback returning rc)
  *   A op op ...         -> one token per op                  (façade history, see run_history)
+ *   W s                 -> cp,cp,...,E|X at_byte at_character  (utf8_decode_init/next over s: every scalar value delivered, then E(nd) or X (error))
  */
 #ifndef _GNU_SOURCE
 #define _GNU_SOURCE
@@ -31,6 +32,16 @@
 #include <unistd.h>
 #include <idn2.h>
 #include <eav.h>
+#if defined __has_include
+# if __has_include(<src/utf8_decode.h>)
+#  include <src/utf8_decode.h>
+#  define HAVE_DECODER_H 1
+extern int  utf8_decode_at_byte(utf8_decode_t *u) __attribute__((weak));
+extern int  utf8_decode_at_character(utf8_decode_t *u) __attribute__((weak));
+extern void utf8_decode_init(const char p[], int length, utf8_decode_t *u) __attribute__((weak));
+extern int  utf8_decode_next(utf8_decode_t *u) __attribute__((weak));
+# endif
+#endif
 
 /* the three back ends differ in the IDN entry points; everything else of this driver is common */
 #if defined HAVE_IDNKIT
@@ -374,6 +385,26 @@ int main (void)
             else if (k == '6') printf ("%d\n", is_ipv6 (s, e));
             else printf ("%d\n", is_ipaddr (s, e));
             if (placed) unplace (placed);
+        }
+        else if (k == 'W') {
+#ifdef HAVE_DECODER_H
+            if (utf8_decode_init && utf8_decode_next && utf8_decode_at_byte && utf8_decode_at_character) {
+                size_t n = unhex (f[1], a_buf);
+                a_buf[n] = 0;
+                char *placed = place_mode ? place (a_buf, n) : NULL;
+                utf8_decode_t u;
+                utf8_decode_init (placed ? placed : a_buf, (int) n, &u);
+                for (size_t guard = 0; guard <= n + 1; guard++) {
+                    int c = utf8_decode_next (&u);
+                    if (c == UTF8_END) { fputs ("E", stdout); break; }
+                    if (c == UTF8_ERROR) { fputs ("X", stdout); break; }
+                    printf ("%d,", c);
+                }
+                printf (" %d %d\n", utf8_decode_at_byte (&u), utf8_decode_at_character (&u));
+                if (placed) unplace (placed);
+            } else
+#endif
+            puts ("n/a");
         }
         else if (k == 'H') {
             size_t n = unhex (f[2], a_buf);
